@@ -60,9 +60,9 @@ Print Assumptions C11_consistent_invariant_partial.
 (* non-vacuity: install 1, refresh to 2, refresh to 3 failing after the last task (revision 1 is already garbage-collected),
    refresh to 3, revert to 2, disable, remove --revision 2 (the current one): kept [3], current 3 *)
 Example C11_history_example :
-  let i := mkOp OInstall 1 false 1 false false false false false 0 false 0 1 in
-  let d := mkOp ODisable 0 false 0 false false false false false 0 false 0 6 in
-  let rr := mkOp ORemoveRev 2 false 0 false false false false false 0 false 0 7 in
+  let i := mkOp OInstall 1 false 1 false false false false false 0 false 0 1 true in
+  let d := mkOp ODisable 0 false 0 false false false false false 0 false 0 6 true in
+  let rr := mkOp ORemoveRev 2 false 0 false false false false false 0 false 0 7 true in
   let hs := [mkH i 0 2 no_inuse; mkH (mk_refresh 2 7 2) 0 2 no_inuse; mkH (mk_refresh 3 0 3) 40 2 no_inuse;
              mkH (mk_refresh 3 0 4) 0 2 no_inuse; mkH (mk_revert 2 true 5) 0 2 no_inuse; mkH d 0 2 no_inuse;
              mkH rr 0 2 no_inuse] in
